@@ -337,7 +337,7 @@ def clause_props(scratch, unit, err):
     the unit belongs to C04 (totality), otherwise for every property of the unit."""
     allp = list(unit['props'])
     msg = err['message']
-    SAFETY = ('possible arithmetic underflow/overflow', 'possible division by zero', 'possible bit shift', 'index out of bounds')
+    SAFETY = ('possible arithmetic underflow/overflow', 'possible division by zero', 'possible bit shift', 'index out of bounds', 'precondition not met')
     text = (err.get('text') or '')
     is_safety = any(m in msg for m in SAFETY) or ('precondition not satisfied' in msg and 'lemma' not in text and 'proof' not in text)
     if is_safety:
